@@ -10,7 +10,10 @@ import (
 	"go/ast"
 	"go/token"
 	"go/types"
+	"sort"
 	"strings"
+
+	"golang.org/x/tools/go/ssa"
 )
 
 func init() {
@@ -32,6 +35,8 @@ type c16Out struct {
 }
 
 func runC16(w *World, r *Report) {
+	r.Rule("observers", "methods that formatting calls implicitly (String, Error, …) leave the value unchanged", 1)
+	observerRule(w, r, "observers", "openflow13")
 	r.Rule("stateless", "the range helpers depend on no package-level state that a call can change and hand out no shared object", 8)
 	importStateless(w, r, "stateless")
 	r.Rule("mask", "the mask helper yields exactly the bits of the range on every feasible path", 1)
@@ -40,6 +45,8 @@ func runC16(w *World, r *Report) {
 	r.Rule("range", "range accessors and constructors agree (first/last vs offset/width)", 5)
 	r.Rule("nosentinel", "no code treats the zero range as 'no range': [0..0] is a legitimate one-bit range", 1)
 	noSentinelRule(w, r)
+	r.Rule("immutable", "a range object is written only by the function that allocates it", 2)
+	immutableRangeRule(w, r)
 
 	get := func(key string, rule string) *FuncInfo {
 		fi := w.Funcs[key]
@@ -387,4 +394,67 @@ func noSentinelRule(w *World, r *Report) {
 	if n == 0 {
 		r.OK("nosentinel", "openflow13.NXRange", "", w.Pos(tn.Pos()), fmt.Sprintf("%d functions handle range values; none compares one as a whole (presence is decided by a nil pointer)", uses), true)
 	}
+}
+
+// immutableRangeRule: a range object is handed to several helpers in turn (a register match, the mask, the
+// offset/width word, a conntrack zone). The agreement the statement asks for between these views holds only
+// while the object they are derived from stays what its constructor made it: every store into a field of
+// NXRange must hit an object allocated in the storing function itself (the constructors), never one that
+// came in through a parameter, a field or a call.
+func immutableRangeRule(w *World, r *Report) {
+	of := w.ByName["openflow13"]
+	var named *types.Named
+	if of != nil {
+		if tn, _ := of.Types.Scope().Lookup("NXRange").(*types.TypeName); tn != nil {
+			named, _ = tn.Type().(*types.Named)
+		}
+	}
+	if named == nil {
+		r.Fail(VViolation, "immutable", "openflow13.NXRange", "", "-", "the range type no longer exists (anchor cannot be resolved)")
+		return
+	}
+	sw := w.SSA()
+	var fns []*ssa.Function
+	for fn := range sw.All {
+		if w.inModule(fn) && len(fn.Blocks) > 0 && !isTestFunc(w, fn) {
+			fns = append(fns, fn)
+		}
+	}
+	sort.Slice(fns, func(i, j int) bool { return fns[i].String() < fns[j].String() })
+	nStores, nBad := 0, 0
+	for _, fn := range fns {
+		perFn := 0
+		for _, b := range fn.Blocks {
+			for _, ins := range b.Instrs {
+				st, ok := ins.(*ssa.Store)
+				if !ok {
+					continue
+				}
+				// whole-object store (*p = NXRange{…}) or field store (p.end = …)
+				var base ssa.Value
+				switch a := st.Addr.(type) {
+				case *ssa.FieldAddr:
+					if pt, ok := a.X.Type().Underlying().(*types.Pointer); ok && types.Identical(pt.Elem(), named) {
+						base = a.X
+					}
+				default:
+					if pt, ok := st.Addr.Type().Underlying().(*types.Pointer); ok && types.Identical(pt.Elem(), named) {
+						base = st.Addr
+					}
+				}
+				if base == nil {
+					continue
+				}
+				nStores++
+				perFn++
+				if _, fresh := base.(*ssa.Alloc); fresh {
+					r.OK("immutable", ssaFuncKey(w, fn), fmt.Sprintf("store#%d", perFn), w.Pos(st.Pos()), "store into a range object allocated in this function (a constructor)", true)
+					continue
+				}
+				nBad++
+				r.Fail(VViolation, "immutable", ssaFuncKey(w, fn), describeAddr(st.Addr), w.Pos(st.Pos()), "a field of a range object that was not allocated here is overwritten: the caller's range changes under it, and the mask, the offset/width word and the matches derived from it before and after no longer describe the same bits")
+			}
+		}
+	}
+	r.Stats["range_field_stores"] = nStores
 }
